@@ -10,7 +10,7 @@ CLAIMED = {
             "Decides, for every type reachable from GdsLibrary/LefLibrary, the structural necessary conditions of a lossless text round trip: no unconditionally skipped data field, skip_serializing_if paired with a Default it provably equals, symmetric renames, no one-sided attributes; same back-end crate per format in to_string/from_str/open; exact-number dependency features. It does not decide the dependencies' quoting/escaping behaviour.",
             "trusts rustc's expansion, serde's documented attribute semantics, cargo metadata; string escaping of serde_json/serde_yaml assumed correct",
             "DESIGN.md §3 C18"),
-    "C20": ("hash-iteration / time / address-order source inventory on MIR with sink classification (sequence push, slot-key assignment) and interprocedural mutation summaries; a sort counts as a sanitiser only when its ordering function compares the entries' own keys",
+    "C20": ("hash-iteration / time / address-order source inventory on MIR with sink classification (sequence push, slot-key assignment) and interprocedural mutation summaries; a sort counts as a sanitiser only when its ordering function compares the entries' own keys; map-to-map collects whose closure re-keys by value; who-may-read over the components of the GDSII timestamps outside gds21; process-wide mutable statics",
             "Decides that no HashMap/HashSet iteration order, wall-clock read, pointer-address order or other per-process seed can reach a converter's output order, for all inputs at once; the documented GDSII creation timestamp is the only admitted time source.",
             "trusts resolved callee names of std collections; determinism of dependencies' own code not analysed",
             "DESIGN.md §3 C20"),
